@@ -38,6 +38,9 @@ nodes:
       type: message
       branches:
       - pattern: |
+          {"uid":"?u","d":"?d","only":"?only"}
+        target: bump
+      - pattern: |
           {"uid":"?u"}
         target: bump
   bump:
@@ -47,7 +50,10 @@ nodes:
         var bs = _.bindings;
         bs.n = (bs.n || 0) + 1;
         bs.last = bs["?u"];
+        if (bs["?d"] !== undefined && bs["?only"] === bs.self) { bs.q = 100 / bs["?d"]; }
         delete bs["?u"];
+        delete bs["?d"];
+        delete bs["?only"];
         return bs;
     branching:
       branches:
@@ -164,7 +170,7 @@ func (e *c16env) apply(o c16op) (result string, err error) {
 		// a client retries its previous request verbatim
 		switch e.last.kind {
 		case "add":
-			err = e.s.AddMachine(e.ctx, "counter", e.last.id, "start", match.Bindings{"inc": e.last.inc, "n": 0.0})
+			err = e.s.AddMachine(e.ctx, "counter", e.last.id, "start", match.Bindings{"inc": e.last.inc, "n": 0.0, "self": e.last.id})
 			return "again add", err
 		case "to", "all":
 			msg := map[string]interface{}{"uid": e.last.uid}
@@ -178,7 +184,7 @@ func (e *c16env) apply(o c16op) (result string, err error) {
 	case "add":
 		inc := atomic.AddInt64(&e.incN, 1)
 		e.last = c16last{kind: "add", id: o.Id, inc: float64(inc)}
-		err = e.s.AddMachine(e.ctx, "counter", o.Id, "start", match.Bindings{"inc": float64(inc), "n": 0.0})
+		err = e.s.AddMachine(e.ctx, "counter", o.Id, "start", match.Bindings{"inc": float64(inc), "n": 0.0, "self": o.Id})
 		if err == nil {
 			return fmt.Sprintf("added inc=%d", inc), nil
 		}
@@ -219,6 +225,16 @@ func (e *c16env) apply(o c16op) (result string, err error) {
 			out += id + ":" + from + ">" + to + " "
 		}
 		return out, nil
+	case "poison":
+		// a request to every machine that leaves machine o.Id (only) with a state the
+		// store cannot serialise (q = 100/0): the write of the whole request fails
+		uid := fmt.Sprintf("u%d", atomic.AddInt64(&e.uidN, 1))
+		e.last = c16last{kind: "poison"}
+		_, err = e.s.Process(e.ctx, map[string]interface{}{"uid": uid, "d": 0.0, "only": o.Id}, nil)
+		if err != nil {
+			return "poison: " + err.Error(), err
+		}
+		return "poison: no error", nil
 	case "get":
 		return fw.Canon(e.memory()), nil
 	}
@@ -242,21 +258,56 @@ func genC16Seq(r *rand.Rand, n int) []c16op {
 		case k == 8:
 			seq = append(seq, c16op{"all", ""})
 		default:
-			seq = append(seq, c16op{"get", ""})
+			if r.Intn(2) == 0 {
+				seq = append(seq, c16op{"poison", id})
+			} else {
+				seq = append(seq, c16op{"get", ""})
+			}
 		}
 	}
 	return seq
 }
 
 // c16Sequential runs one sequence under one fault window [i,j).
+// Mid-operation faults (serial phase only): the hook counts the store write calls of one
+// operation and closes the database at the c16FailAtCall-th.
+var (
+	c16WriteCalls int64
+	c16FailAtCall int64
+	c16FailEnv    *c16env
+	c16MaxCalls   int64
+)
+
+func c16MidHook(name string) {
+	if name != "Storage.WriteState" {
+		return
+	}
+	n := atomic.AddInt64(&c16WriteCalls, 1)
+	for {
+		m := atomic.LoadInt64(&c16MaxCalls)
+		if n <= m || atomic.CompareAndSwapInt64(&c16MaxCalls, m, n) {
+			break
+		}
+	}
+	if at := atomic.LoadInt64(&c16FailAtCall); at > 0 && n == at {
+		c16FailEnv.failStore()
+	}
+}
+
 func c16Sequential(cfg fw.Config, rec *fw.Rec, seqIdx int, seq []c16op, fi, fj int) bool {
-	env, err := newC16Env(cfg.WorkDir, fmt.Sprintf("seq-%d-%d-%d", seqIdx, fi, fj))
+	return c16SequentialMid(cfg, rec, seqIdx, seq, fi, fj, -1, 0)
+}
+
+// c16SequentialMid: as c16Sequential; with midK >= 0 the store fails from the midC-th store
+// write call of operation midK on (until that operation returns).
+func c16SequentialMid(cfg fw.Config, rec *fw.Rec, seqIdx int, seq []c16op, fi, fj, midK, midC int) bool {
+	env, err := newC16Env(cfg.WorkDir, fmt.Sprintf("seq-%d-%d-%d-%d-%d", seqIdx, fi, fj, midK+1, midC))
 	if err != nil {
 		rec.Inconclusive("service: " + err.Error())
 		return false
 	}
 	defer env.close()
-	replay := map[string]interface{}{"sequence": seq, "store_fails_from": fi, "store_fails_until": fj}
+	replay := map[string]interface{}{"sequence": seq, "store_fails_from": fi, "store_fails_until": fj, "mid_operation": midK, "mid_write_call": midC}
 	for k, o := range seq {
 		if k == fi && fi < fj {
 			env.failStore()
@@ -281,6 +332,13 @@ func c16Sequential(cfg fw.Config, rec *fw.Rec, seqIdx int, seq []c16op, fi, fj i
 		}
 		failing := k >= fi && k < fj
 		before := env.memory()
+		// a poisoned request fails at the store although the store is healthy
+		poisoned := o.Kind == "poison" && before[o.Id] != ""
+		if midK == k {
+			atomic.StoreInt64(&c16WriteCalls, 0)
+			atomic.StoreInt64(&c16FailAtCall, int64(midC))
+			c16FailEnv = env
+		}
 		var res string
 		var opErr error
 		if rec.Guard("C16", replay, func() { res, opErr = env.apply(o) }) {
@@ -288,6 +346,48 @@ func c16Sequential(cfg fw.Config, rec *fw.Rec, seqIdx int, seq []c16op, fi, fj i
 		}
 		rec.Eval(1)
 		after := env.memory()
+		if midK == k {
+			atomic.StoreInt64(&c16FailAtCall, 0)
+			n := atomic.LoadInt64(&c16WriteCalls)
+			if n < int64(midC) {
+				return true // the operation made fewer write calls than that: nothing injected
+			}
+			rec.Bucket("mid_operation_fault_injected")
+			// the store failed from the midC-th write call of this operation on: the
+			// operation's write failed, so memory must be as before, and once the store is
+			// back it must agree with memory
+			if fw.Canon(before) != fw.Canon(after) {
+				rec.Violation("C16:memory-changed-although-write-failed:mid-operation", fmt.Sprintf("operation %d (%s %s): the store failed from write call %d of the operation on; memory changed from %s to %s", k, o.Kind, o.Id, midC, fw.Short(before), fw.Short(after)), replay)
+				return false
+			}
+			if err := env.healStore(); err != nil {
+				rec.Inconclusive("reopen: " + err.Error())
+				return false
+			}
+			st, err := env.stored()
+			if err != nil {
+				rec.Inconclusive("GetCrew: " + err.Error())
+				return false
+			}
+			if fw.Canon(after) != fw.Canon(st) {
+				rec.Violation("C16:memory-differs-from-store:mid-operation", fmt.Sprintf("operation %d (%s %s) failed at write call %d: memory %s, store %s", k, o.Kind, o.Id, midC, fw.Short(after), fw.Short(st)), replay)
+				return false
+			}
+			continue
+		}
+		if poisoned && !failing {
+			if opErr == nil {
+				rec.Bucket("poisoned_request_reported_no_error")
+			}
+			if fw.Canon(before) != fw.Canon(after) {
+				rec.Violation("C16:memory-changed-although-write-failed:poison", fmt.Sprintf("operation %d (a request that leaves %s with a state the store cannot serialise, so its write fails) changed memory from %s to %s (result: %s)", k, o.Id, fw.Short(before), fw.Short(after), res), replay)
+				return false
+			}
+			rec.Bucket("unserialisable_state_left_memory_unchanged")
+			if len(before) >= 2 {
+				rec.Bucket("unserialisable_state_in_multi_machine_request")
+			}
+		}
 		if failing {
 			// (2) an operation whose write failed leaves the crew as it was
 			if fw.Canon(before) != fw.Canon(after) {
@@ -555,8 +655,8 @@ func c16Concurrent(cfg fw.Config, rec *fw.Rec, idx int, interleavings map[string
 
 func init() {
 	verifRegistry["C16/mcrew"] = func(cfg fw.Config, rec *fw.Rec) {
-		rec.Rule = "sequential: operation sequences of length 2-8 over {add, rem, process-to, process-all, read-crew, retry-the-previous-request-verbatim} on ids {m1,m2,m3}; for every 0 <= i < j <= n the bolt store is closed for operations i..j-1 (plus the fault-free run); after each operation with a healthy store memory must equal the store, an operation whose write failed must leave memory as it was, after recovery memory must equal the store; concurrent: 4-8 clients x 6-15 requests on 2-3 ids with every store write delayed 0-2 ms through the verifPoint hook: final memory == store, no two process results from one machine state, per-machine history linearizable (porcupine) w.r.t. a sequential service model; non-trivial = sequence run under a fault window / concurrent history; distinct by (sequence, window) / history"
-		rec.Required = []string{"healthy_op_memory_equals_store", "failed_write_left_memory_unchanged", "recovered_store_agrees", "concurrent_histories", "histories_linearizable_per_machine", "fault_windows"}
+		rec.Rule = "sequential: operation sequences of length 2-8 over {add, rem, process-to, process-all, read-crew, retry-the-previous-request-verbatim} on ids {m1,m2,m3}; for every 0 <= i < j <= n the bolt store is closed for operations i..j-1 (plus the fault-free run); after each operation with a healthy store memory must equal the store, an operation whose write failed must leave memory as it was, after recovery memory must equal the store; a 'poison' request to every machine leaves one machine with a state the store cannot serialise (100/0), so the request's write fails although the store is healthy: memory must stay as it was for every machine and equal the store; mid-operation faults: the hook counts an operation's store write calls and closes the database at the 1st/2nd/3rd call of that operation (the observed maximum of write calls per operation is reported); concurrent: 4-8 clients x 6-15 requests on 2-3 ids with every store write delayed 0-2 ms through the verifPoint hook: final memory == store, no two process results from one machine state, per-machine history linearizable (porcupine) w.r.t. a sequential service model; non-trivial = sequence run under a fault window / concurrent history; distinct by (sequence, window) / history"
+		rec.Required = []string{"healthy_op_memory_equals_store", "failed_write_left_memory_unchanged", "recovered_store_agrees", "concurrent_histories", "histories_linearizable_per_machine", "fault_windows", "unserialisable_state_left_memory_unchanged", "unserialisable_state_in_multi_machine_request", "mid_operation_fault_injected"}
 		rec.Assume = []string{"store faults are injected by closing the bolt database (every write and read fails until it is reopened); commits do not fsync (NoSync) because durability is not monitored", "machines are counters with a unique incarnation tag, so every state of every incarnation is distinguishable", "porcupine timeout 60 s = inconclusive"}
 		// sequential fault enumeration
 		nseq := cfg.Pick(40, 800)
@@ -572,6 +672,9 @@ func init() {
 			seq := genC16Seq(r, n)
 			if i == 0 {
 				seq = []c16op{{"add", "m1"}, {"to", "m1"}, {"again", ""}, {"rem", "m1"}, {"add", "m1"}, {"again", ""}, {"all", ""}, {"get", ""}}
+			}
+			if i == 1 {
+				seq = []c16op{{"add", "m1"}, {"add", "m2"}, {"add", "m3"}, {"poison", "m2"}, {"all", ""}, {"poison", "m1"}, {"get", ""}}
 				n = len(seq)
 			}
 			jobs = append(jobs, job{i, seq, 0, 0})
@@ -592,6 +695,29 @@ func init() {
 				}
 			}
 		})
+		// mid-operation faults: serial, the hook counts the write calls of each operation
+		VerifPoint = c16MidHook
+		nmid := 0
+		for i := 0; i < cfg.Pick(25, 300); i++ {
+			r := cfg.Rng("c16-seq", i)
+			n := 2 + r.Intn(7)
+			seq := genC16Seq(r, n)
+			if i == 0 {
+				seq = []c16op{{"add", "m1"}, {"add", "m2"}, {"add", "m3"}, {"all", ""}, {"poison", "m2"}, {"all", ""}, {"rem", "m2"}, {"all", ""}}
+			}
+			for k := range seq {
+				for c := 1; c <= 3; c++ {
+					atomic.StoreInt64(&c16WriteCalls, 0)
+					if !c16SequentialMid(cfg, rec, i, seq, 0, 0, k, c) {
+						break
+					}
+					nmid++
+				}
+			}
+		}
+		VerifPoint = nil
+		rec.SetExtra("mid_operation_fault_runs", nmid)
+		rec.SetExtra("max_store_write_calls_seen_in_one_operation", atomic.LoadInt64(&c16MaxCalls))
 		// concurrent part: widen the window around every store write
 		var hookRng = rand.New(rand.NewSource(cfg.Seed))
 		var hmu sync.Mutex
